@@ -15,7 +15,7 @@ Definition record_case (flags : N) (wlist blist : list str) (k : str) : bool * b
   let g := build_namespace_privilege flags wlist blist in (ns_check g k, is_all g, get_flags g).
 
 Definition guard_code (gd : guard) : N :=
-  match gd with GuardCheck => 0 | GuardParam => 1 | GuardFilter => 2 | NoGuard => 3 end.
+  match gd with GuardCheck => 0 | GuardParam => 1 | GuardFilter => 2 | NoGuard => 3 | GuardIndex => 4 end.
 
 (** the model's verdict for a request: does a handler with guard [gd] act for group [g] on [k] *)
 Definition acts_cases (gd : guard) (g : pgroup) (ks : list (option str)) : list bool := map (acts gd g) ks.
